@@ -233,6 +233,7 @@ def run_obligations(prop, obligations, jobs=None, progress=None, budget_s=None):
     jobs = jobs or min(16, os.cpu_count() or 4)
     if not obligations:
         return []
+    os.environ["PYTHONHASHSEED"] = "0"      # workers inherit: set iteration order is then fixed across processes and runs
     ctx = mp.get_context("spawn")
     results = [None] * len(obligations)
     t0 = time.time()
